@@ -571,6 +571,26 @@ pub fn run(ctx: &Ctx) -> Outcome {
         Job::Template(i) => {
             perturb_templates(&tpl[*i], rep);
             rep.count("templates_completed");
+            if *i == 0 {
+                // lines whose byte sum is as large as it gets, with the right checksum, with every neighbouring wrong one,
+                // and with 00 / 01 / FF in its place
+                for len in 250..=255usize {
+                    for (addr, ty) in [(0xFFFFu16, 0xFFu8), (0xFFFE, 0xFF), (0xFF00, 0xFE), (0x0000, 0x00)] {
+                        let good = refs::enc(addr, ty, &vec![0xFFu8; len]);
+                        check_string(&good, "largest_byte_sums", rep);
+                        let n = good.len();
+                        for tail in [&b"00"[..], b"01", b"02", b"FF", b"FE", b"80"] {
+                            let mut bad = good.clone();
+                            bad[n - 2..].copy_from_slice(tail);
+                            check_string(&bad, "largest_byte_sums", rep);
+                            let mut with_crlf = bad.clone();
+                            with_crlf.extend_from_slice(b"\r\n");
+                            check_string(&with_crlf, "largest_byte_sums", rep);
+                        }
+                        rep.count("largest_byte_sum_lines");
+                    }
+                }
+            }
         }
         Job::Gen(i) => {
             let mut rng = ctx.rng("gen", *i);
@@ -612,6 +632,7 @@ pub fn run(ctx: &Ctx) -> Outcome {
         floor("alphabet-13 enumeration complete (169 prefixes)", report.get("alpha13_prefixes_completed") == 169, report.get("alpha13_prefixes_completed")),
         floor("alphabet-5 enumeration complete (125 prefixes)", report.get("alpha5_prefixes_completed") == 125, report.get("alpha5_prefixes_completed")),
         floor("multi-byte (non-ASCII) sequences substituted and inserted at every position of every template", report.get("multibyte_substitutions") >= 4 * 2 * 26 * 20, report.get("multibyte_substitutions")),
+        floor("lines with the largest possible byte sums (right and wrong checksums)", report.get("largest_byte_sum_lines") == 24, report.get("largest_byte_sum_lines")),
         floor("all templates perturbed", report.get("templates_completed") == tpl.len() as u64, report.get("templates_completed")),
         floor("class ok observed >= 1000x", report.get("class/ok") >= 1000, report.get("class/ok")),
         floor("class malformed observed >= 1000x", report.get("class/malformed") >= 1000, report.get("class/malformed")),
